@@ -568,6 +568,46 @@ Definition vector_keyword (n : nat) (presized : bool) (elem_ok : Q -> bool) (tok
 
 Definition tok_value (t : tok) : option Q := match parse_real (Some t) with QVal q => Some q | _ => None end.
 
+(* ------------------------------------------------------------------------------------------------ *)
+(* Module-level pending configuration: colvarmodule::extra_conf                                        *)
+(* ------------------------------------------------------------------------------------------------ *)
+
+(* A variable block with the deprecated lowerWall/upperWall keywords QUEUES a harmonicWalls block
+   (colvar::parse_legacy_wall_params -> append_new_config) while it is being initialised, also when the variable is
+   then rejected and deleted.  parse_config() clears the queue when it starts, appends to it during parse_colvars,
+   and parses + clears it at its end; every early return on a rejected configuration skips that end, so the queue
+   is module-level residue of a rejected configuration.  [clear = false] is the variant without the clear() at the
+   start (seeded change C10_3). *)
+Record cblock := mkCBlock { cb_block : block; cb_walls : option block }.
+Record mstate := mkMState { ms_lists : lists; ms_pending : list block }.
+
+(* what the variables that parse_colvars actually initialises queue: up to and including the first rejected one *)
+Fixpoint queued (bs : list cblock) (have : list string) : list block :=
+  match bs with
+  | [] => []
+  | b :: r =>
+      let q := match cb_walls b with Some w => [w] | None => [] end in
+      if k_fails (cb_block b) || existsb (String.eqb (k_name (cb_block b))) have then q
+      else q ++ queued r (have ++ [k_name (cb_block b)])
+  end.
+
+Definition parse_config_ext (clear : bool) (cvs : list cblock) (biases_by_type : list (list block)) (st : mstate) : mstate :=
+  let p0 := if clear then [] else ms_pending st in
+  let l0 := mkLists (l_colvars (ms_lists st)) (l_biases (ms_lists st)) false in
+  let l1 := parse_colvars (map cb_block cvs) l0 in
+  let p1 := p0 ++ queued cvs (l_colvars l0) in
+  if l_err l1 then mkMState l1 p1                                     (* early return: the queue is left behind *)
+  else
+    let l2 := parse_biases biases_by_type l1 in
+    if l_err l2 then mkMState l2 p1
+    else match p1 with
+         | [] => mkMState l2 []
+         | _ => mkMState (parse_biases [p1] l2) []                    (* the queued blocks are parsed, then cleared *)
+         end.
+
+(* what the next parse_config() call can see of a state: the object lists (the error flag is reset by the caller) *)
+Definition visible (st : mstate) : list string * list (string * string) := (l_colvars (ms_lists st), l_biases (ms_lists st)).
+
 (* How a block comes to "fail".  Most validation errors are raised through a bare cvm::error() whose return value is
    dropped (the init function carries on and may return COLVARS_OK): they only set the module's error state.
    colvar::init() ends with parse_analysis(), which returns (cvm::get_error() ? COLVARS_ERROR : COLVARS_OK), and
@@ -644,3 +684,186 @@ Definition guard_exempt : list (string * string * string) := [
 Definition guard_known (g : string * string * string) : bool :=
   let '(f, k, _) := g in
   existsb (fun e => let '(f', k', _) := e in String.eqb f f' && String.eqb k k') (guard_covered ++ guard_exempt).
+
+(* ================================================================================================ *)
+(* Round 4: the validation DECISION of each object kind, keyword by keyword, in the order of the code,    *)
+(* with the error class (bits of the module's error state after the configuration)                         *)
+(* ================================================================================================ *)
+
+(* a configuration fragment: keyword -> value text (absent keywords are not in the list), list-valued keywords
+   -> their tokens, boolean keywords -> their value *)
+Record env := mkEnv { e_scalars : list (string * tok); e_lists : list (string * list tok); e_flags : list (string * bool) }.
+
+Fixpoint assoc {A} (k : string) (l : list (string * A)) : option A :=
+  match l with [] => None | (k', v) :: r => if String.eqb k k' then Some v else assoc k r end.
+
+Definition ereal (e : env) (k : string) (def : Q) : Q * bool := getQ (parse_real (assoc k (e_scalars e))) def def.
+Definition eint (ty : ctype) (e : env) (k : string) (def : Z) : Z * bool := getZ (parse_int ty (assoc k (e_scalars e))) def def.
+Definition egiven (e : env) (k : string) : bool := match assoc k (e_scalars e) with Some _ => true | None => false end.
+Definition eflag (e : env) (k : string) (def : bool) : bool := match assoc k (e_flags e) with Some b => b | None => def end.
+Definition elist (e : env) (k : string) : option (list tok) := assoc k (e_lists e).
+Definition elist_given (e : env) (k : string) : bool := match assoc k (e_lists e) with Some _ => true | None => false end.
+
+(* error state accumulated by an init function: any error (-> rejected), and the extra class bits *)
+Record errs := mkErrs { x_err : bool; x_bug : bool; x_mem : bool }.
+Definition no_errs := mkErrs false false false.
+Definition flag_input (c : bool) (x : errs) : errs := if c then mkErrs true (x_bug x) (x_mem x) else x.
+Definition flag_bug (c : bool) (x : errs) : errs := if c then mkErrs true true (x_mem x) else x.
+Definition flag_mem (c : bool) (x : errs) : errs := if c then mkErrs true (x_bug x) true else x.
+
+Definition Q0 : Q := 0 # 1.
+
+(* ---- colvar: init_grid_parameters, check_grid_parameters, init_extended_Lagrangian, timeStepFactor ---- *)
+Record cvx := mkCvx { vx_width : Q; vx_lb : option Q; vx_ub : option Q; vx_ext : bool; vx_temp : Q; vx_fluct : Q;
+                      vx_tc : Q; vx_damping : Q; vx_tsf : Z }.
+
+Definition colvarx_validate (engine_temp : Q) (e : env) : errs * cvx :=
+  let '(tsf, p0) := eint TInt e "timeStepFactor" 1 in
+  let x0 := flag_input (p0 || (tsf <? 0)) no_errs in                                    (* tsf < 0: error + return from init *)
+  let '(w, p1) := ereal e "width" (1 # 1) in
+  let x1 := flag_input (p1 || Qle_bool w Q0) x0 in                                       (* width <= 0: error (grid part returns) *)
+  let '(lb, p2) := ereal e "lowerBoundary" Q0 in
+  let '(ub, p3) := ereal e "upperBoundary" w in
+  let both := egiven e "lowerBoundary" && egiven e "upperBoundary" in
+  let grid_ok := negb (Qle_bool w Q0) in
+  let x2 := flag_input (grid_ok && (p2 || p3 || (both && Qle_bool ub lb))) x1 in         (* boundaries are parsed only if the width was accepted *)
+  let x3 := flag_input (grid_ok && eflag e "expandBoundaries" false && eflag e "hardLowerBoundary" false && eflag e "hardUpperBoundary" false) x2 in
+  let ext := eflag e "extendedLagrangian" false in
+  let ext_keys := egiven e "extendedTemp" || egiven e "extendedFluctuation" || egiven e "extendedTimeConstant" || egiven e "extendedLangevinDamping" in
+  if negb ext || (tsf <? 0) then (flag_input ext_keys x3 (* check_keywords: keywords that nothing looked up *), mkCvx w (if egiven e "lowerBoundary" then Some lb else None) (if egiven e "upperBoundary" then Some ub else None)
+                                            false Q0 Q0 Q0 Q0 tsf)
+  else
+    let '(temp, p4) := ereal e "extendedTemp" engine_temp in
+    if Qle_bool temp Q0 then (flag_input true x3, mkCvx w None None true temp Q0 Q0 Q0 tsf)          (* error + return *)
+    else
+      let '(fl, p5) := ereal e "extendedFluctuation" Q0 in                                           (* no default: 0 (repaired) *)
+      if Qle_bool fl Q0 then (flag_input true x3, mkCvx w None None true temp fl Q0 Q0 tsf)           (* error + return *)
+      else
+        let '(tc, p6) := ereal e "extendedTimeConstant" (200 # 1) in
+        let x4 := flag_input (p4 || p5 || p6 || Qle_bool tc Q0) x3 in                                 (* error, no return *)
+        let '(g, p7) := ereal e "extendedLangevinDamping" (1 # 1) in
+        let x5 := flag_input (p7 || Qltb g Q0) x4 in
+        (x5, mkCvx w (if egiven e "lowerBoundary" then Some lb else None) (if egiven e "upperBoundary" then Some ub else None)
+                   true temp fl tc g tsf).
+
+(* ---- harmonicWalls on n variables -------------------------------------------------------------------- *)
+Fixpoint pairwise_lt (l u : list Q) : bool :=
+  match l, u with
+  | a :: lr, b :: ur => Qltb a b && pairwise_lt lr ur
+  | _, _ => true
+  end.
+
+(* variables(i)->dist2(lower, upper) < 1.0e-12: walls that coincide *)
+Fixpoint pairwise_apart (l u : list Q) : bool :=
+  match l, u with
+  | a :: lr, b :: ur => negb (Qltb ((b - a) * (b - a)) (1 # 1000000000000)) && pairwise_apart lr ur
+  | _, _ => true
+  end.
+
+Record wallsx := mkWallsx { wx_lower : list Q; wx_upper : list Q; wx_lk : Q; wx_uk : Q }.
+
+Definition walls_validate (n : nat) (e : env) : errs * wallsx :=
+  let '(fk, p0) := ereal e "forceConstant" (1 # 1) in
+  let x0 := flag_input (p0 || Qltb fk Q0) no_errs in                                   (* invalid force constant (the return value is dropped) *)
+  (* both lists are pre-sized to n before they are read; an absent one is then cleared *)
+  let '(lw, el) := match elist e "lowerWalls" with None => ([], false) | Some ts => getV (Some ts) (repeat Q0 n) end in
+  let '(uw, eu) := match elist e "upperWalls" with None => ([], false) | Some ts => getV (Some ts) (repeat Q0 n) end in
+  let x1 := flag_input (el || eu) x0 in
+  if (Nat.eqb (List.length lw) 0) && (Nat.eqb (List.length uw) 0) then (flag_input true x1, mkWallsx lw uw Q0 Q0)   (* no walls: return *)
+  else
+    let '(lk, p1) := if Nat.eqb (List.length lw) 0 then (Q0, false) else ereal e "lowerWallConstant" fk in
+    let '(uk, p2) := if Nat.eqb (List.length uw) 0 then (Q0, false) else ereal e "upperWallConstant" fk in
+    let x2 := flag_input (p1 || p2 || (Nat.eqb (List.length lw) 0 && egiven e "lowerWallConstant")
+                          || (Nat.eqb (List.length uw) 0 && egiven e "upperWallConstant")) x1 in   (* check_keywords *)
+    if negb (Nat.eqb (List.length lw) 0) && negb (Nat.eqb (List.length uw) 0) then
+      if negb (pairwise_lt lw uw) || negb (pairwise_apart lw uw) then (flag_input true x2, mkWallsx lw uw lk uk)
+      else if Qeq_bool (lk * uk) Q0 then (flag_input true x2, mkWallsx lw uw lk uk)
+      else (x2, mkWallsx lw uw lk uk)
+    else (x2, mkWallsx lw uw lk uk).
+
+(* ---- OPES: the real-valued parameters (epsilon and kernelCutoff given explicitly) -------------------- *)
+Record opesx := mkOpesx { ox_barrier : Q; ox_bf : option Q (* None = inf *); ox_eps : Q; ox_cutoff : Q; ox_ct : Q }.
+
+(* [kbt] = k_B T of the engine (> 0 in the tie); biasfactor given as text: a number, "inf", or absent (barrier/kbt) *)
+Definition opesx_validate (kbt : Q) (bf_inf : bool) (explore : bool) (e : env) : errs * opesx :=
+  let '(pace, p0) := eint TStep e "newHillFrequency" 0 in
+  if pace <=? 0 then (flag_input true no_errs, mkOpesx Q0 None Q0 Q0 Q0)
+  else
+    let '(ba, p1) := ereal e "barrier" Q0 in
+    if Qltb ba Q0 then (flag_input true no_errs, mkOpesx ba None Q0 Q0 Q0)
+    else
+      let bf_given := egiven e "biasfactor" in
+      let '(bfv, p2) := ereal e "biasfactor" (ba / kbt) in
+      if bf_inf && explore then (flag_input true no_errs, mkOpesx ba None Q0 Q0 Q0)
+      else if negb bf_inf && (p2 || Qle_bool bfv (1 # 1)) then (flag_input true no_errs, mkOpesx ba (Some bfv) Q0 Q0 Q0)
+      else
+        let '(eps, p3) := ereal e "epsilon" Q0 in
+        if Qle_bool eps Q0 then (flag_input true no_errs, mkOpesx ba None eps Q0 Q0)
+        else
+          let '(cut, p4) := ereal e "kernelCutoff" Q0 in
+          if Qle_bool cut Q0 then (flag_input true no_errs, mkOpesx ba None eps cut Q0)
+          else
+            let '(ct, p5) := ereal e "compressionThreshold" (1 # 1) in
+            if negb (Qeq_bool ct Q0) && (Qltb ct Q0 || Qltb cut ct) then (flag_input true no_errs, mkOpesx ba None eps cut ct)
+            else (flag_input (p0 || p1 || p3 || p4 || p5) no_errs,
+                  mkOpesx ba (if bf_inf then None else Some bfv) eps cut ct).
+
+(* ---- metadynamics: hillWeight, widths, well-tempered ------------------------------------------------- *)
+Record metax := mkMetax { mx_weight : Q; mx_sigmas : nat; mx_wt : bool; mx_biastemp : Q }.
+
+Definition metax_validate (n : nat) (e : env) : errs * metax :=
+  let '(hw, p0) := ereal e "hillWeight" Q0 in
+  let '(nhf, pf1) := eint TSize e "newHillFrequency" 1000 in
+  let '(guf, pf2) := eint TSize e "gridsUpdateFrequency" nhf in
+  let x0 := flag_input (p0 || pf1 || pf2 || Qle_bool hw Q0) no_errs in                    (* error, no return *)
+  let '(sig, es) := getV (elist e "gaussianSigmas") [] in
+  let '(hwid, p1) := ereal e "hillWidth" Q0 in
+  let x1 := flag_input (es || p1 || (negb (Nat.eqb (List.length sig) 0) && Qltb Q0 hwid)) x0 in   (* mutually exclusive *)
+  let nsig := if Qltb Q0 hwid then n else List.length sig in
+  if negb (Nat.eqb nsig n) then (flag_input true x1, mkMetax hw nsig false Q0)              (* number of widths: return *)
+  else
+    let wt := eflag e "wellTempered" false in
+    let '(bt, p2) := ereal e "biasTemperature" (-1 # 1) in
+    (flag_input (p2 || (wt && Qeq_bool bt (-1 # 1))) x1, mkMetax hw nsig wt bt).
+
+(* ---- ABF: shared ------------------------------------------------------------------------------------- *)
+Definition abfshared_validate (restart_out_freq : Z) (e : env) : errs * (Z * Z) :=
+  let '(ofr, p0) := eint TSize e "outputFreq" restart_out_freq in
+  let shared := eflag e "shared" false in
+  if shared then
+    let '(sf, p1) := eint TSize e "sharedFreq" ofr in
+    if negb (sf =? 0) && negb (ofr mod sf =? 0) then (flag_input true no_errs, (ofr, sf))
+    else (flag_input (p0 || p1) no_errs, (ofr, sf))
+  else (flag_input (p0 || egiven e "sharedFreq") no_errs, (ofr, 0)).                    (* check_keywords *)
+
+(* ---- ALB ---------------------------------------------------------------------------------------------- *)
+Definition alb_validate (n : nat) (e : env) : errs * (Z * nat) :=
+  let '(c, ec) := match elist e "centers" with None => ([], true) | Some ts => getV (Some ts) (repeat Q0 n) end in
+  let x0 := flag_input (ec || negb (Nat.eqb (List.length c) n)) no_errs in
+  let '(uf, p0) := eint TInt e "UpdateFrequency" 0 in
+  let x1 := flag_input (p0 || negb (egiven e "UpdateFrequency")) x0 in
+  let half := Z.quot uf 2 in                                                               (* update_freq /= 2 (int) *)
+  (flag_input (half <=? 1) x1, (half, List.length c)).
+
+(* ---- restraint with a changing force constant (harmonic) --------------------------------------------- *)
+Record kx := mkKx { kx_k : Q; kx_changing : bool; kx_nsteps : Z; kx_nstages : Z }.
+
+Definition kmoving_validate (restart_out_freq : Z) (e : env) : errs * kx :=
+  let '(k, p0) := ereal e "forceConstant" (1 # 1) in
+  let x0 := flag_input (p0 || Qltb k Q0) no_errs in                                        (* invalid force constant *)
+  let dec := eflag e "decoupling" false in
+  let tfk_given := egiven e "targetForceConstant" in
+  let '(tfk, p1) := ereal e "targetForceConstant" Q0 in
+  if tfk_given && dec then (flag_input true x0, mkKx k true 0 0)
+  else if negb (dec || tfk_given)
+       then (flag_input (egiven e "targetNumSteps" || egiven e "targetNumStages" || elist_given e "lambdaSchedule") x0, mkKx k false 0 0)
+  else
+    let '(ns, p2) := eint TStep e "targetNumSteps" 0 in
+    if ns =? 0 then (flag_input true x0, mkKx k true ns 0)
+    else
+      let '(ng, p3) := eint TInt e "targetNumStages" 0 in
+      let '(sched, esch) := getV (elist e "lambdaSchedule") [] in
+      if elist_given e "lambdaSchedule" && (0 <? ng) then (flag_input true x0, mkKx k true ns ng)
+      else
+        let ng' := if Nat.eqb (List.length sched) 0 then ng else Z.of_nat (List.length sched) - 1 in
+        (flag_input (p1 || p2 || p3 || esch) x0, mkKx k true ns ng').
